@@ -73,11 +73,14 @@ KINDS = {
     'C07': {'view', 'view-error', 'write-error', 'docget', 'docquery', 'delete-absent'},
     'C08': {'order', 'list', 'list-error', 'removed', 'reordered', 'window', 'get'},
 }
+KINDS['C15'] = {'limit-error', 'limit-all', 'limit-count', 'limit-phantom', 'limit-order', 'limit-newest', 'limit-recent', 'panic'}
+KINDS['C13'] = {'snapshot-error', 'snapshot-mismatch', 'snapshot-silent', 'panic'}
 TRACE_INV = {
     'C01': {'Convergence'},
     'C06': {'ViewConforms', 'ViewMatches', 'CausalOrder'},
     'C07': {'ViewConforms', 'ViewMatches'},
     'C08': {'OrderConforms'},
+    'C15': set(), 'C13': set(),
 }
 
 
@@ -87,7 +90,7 @@ def nontrivial(b):
     return 'Sync' in acts and len(writers) >= 2
 
 
-def run_core(ck, prop, stype, tier, n_sim, depth, sim_entries, n_random, random_len, final_sync=False, small=None, timeout=900):
+def run_core(ck, prop, stype, tier, n_sim, depth, sim_entries, n_random, random_len, final_sync=False, small=None, timeout=900, extra=None):
     # (a) exhaustive model checking of the small configuration
     if small:
         r = vlib.tlc_check('MCCore.tla', small, '%s-%s-small' % (prop, stype), timeout=timeout)
@@ -107,6 +110,7 @@ def run_core(ck, prop, stype, tier, n_sim, depth, sim_entries, n_random, random_
     inp = {'property': prop, 'type': stype, 'replicas': ['a', 'b', 'c'], 'seed': SEED, 'behaviours': bs,
            'random': n_random, 'random_len': random_len, 'trace_out': trace_path, 'final_sync': final_sync,
            'keys': KEYS, 'vals': VALS}
+    inp.update(extra or {})
     res = vlib.run_vh('core', inp, tag='%s-%s' % (prop, stype))
     allv = res.get('violations', [])
     res['violations'] = [v for v in allv if v['kind'] in KINDS[prop]]
@@ -192,6 +196,40 @@ def c08(prop, tier):
                'specification order and checked for removals/reorderings; non-trivial = >=2 writers and >=1 merge')
     small = cfg_small('log', ['a', 'b', 'c'], 3 if tier == 'quick' else 4, 1)
     run_core(ck, prop, 'log', tier, small=small, **sizes(tier))
+    return ck.finish()
+
+
+def limit_cfg(stype, entries):
+    return ('CoreLimit.%s.cfg' % stype, '''SPECIFICATION LSpec
+CONSTANTS
+  Replica = {"a", "b"}
+  Writer = {"a", "b"}
+  StoreType = "%s"
+  MaxEntries = %d
+  MaxRestarts = 0
+  Keys = {k1}
+  Vals = {v1}
+  NoVal = NoVal
+  Rank <- RankDef
+INVARIANTS LimitOK Recoverable
+CHECK_DEADLOCK FALSE
+''' % (stype, entries))
+
+
+def c15(prop, tier):
+    ck = Check(prop, tier)
+    thorough = tier == 'thorough'
+    ck.rule = ('for every replica of every replayed Core behaviour (single and several cached heads, local and replicated entries) a '
+               'fresh instance is started on a copy of its durable state and Load(n) is run for every n from -2 to length+2, per call '
+               'and through MaxHistory; result compared with the property (count, order, newest, single-writer exactness); '
+               'non-trivial = behaviours with >=2 writers and a merge')
+    r = vlib.tlc_check('MCCoreLimit.tla', limit_cfg('log', 5 if thorough else 4), 'C15-limit', timeout=1200)
+    ck.require_model_ok(r, 'CoreLimit: Load(n) as coded vs LimitOK on every log of <= %d entries' % (5 if thorough else 4))
+    log('  TLC CoreLimit: %d distinct / %d generated, %.0fs' % (r['distinct'], r['generated'], r['wall']))
+    sz = dict(n_sim=150 if thorough else 18, depth=16, sim_entries=7 if thorough else 6, n_random=0, random_len=0)
+    for stype in (['log', 'kv', 'doc'] if thorough else ['log', 'kv']):
+        res = run_core(ck, prop, stype, tier, extra={'load_limits': True}, **sz)
+        ck.extra['limited_loads'] = ck.extra.get('limited_loads', 0) + res.get('stats', {}).get('limited_loads', 0)
     return ck.finish()
 
 
